@@ -398,14 +398,23 @@ def run(chk):
         n_vm = len(vcases)
     except vlib.BuildError as e:
         chk.tie_break('build', 'vmslot harness: %s' % str(e)[:300])
+    # --- the finite state machine of compiled passes, intact and with edited state tables, against Model/FsmModel.v (the object of
+    #     C02_fsm_tables_well_formed / C02_fsm_run_in_bounds): tables as loaded; per slot of a text runFSM's verdict, context, map size, rules
+    n_fsm = 0
+    try:
+        from props import fsmleg
+        n_fsm, fcls, fdis, fdist = fsmleg.run(chk, 400 if thorough else 60)
+        classes |= fcls; ndis += fdis; dist.update(fdist)
+    except vlib.BuildError as e:
+        chk.tie_break('build', 'fsm harness / driver: %s' % str(e)[:300])
     chk.notes.append('shipped: %s' % sorted(stats.items()))
     chk.notes.append('mutated fonts (%d fonts x 3 texts): %s' % (nf, sorted(mstats.items())))
-    chk.cov.update(evaluations=total + n_vm, distinct_nontrivial=len(classes), disagreements_checked=ndis, distribution=dict(dist, **{k: v for k, v in stats.items() if k.startswith('reftrace') or k.startswith('comb')}),
+    chk.cov.update(evaluations=total + n_vm + n_fsm, distinct_nontrivial=len(classes), disagreements_checked=ndis, distribution=dict(dist, **{k: v for k, v in stats.items() if k.startswith('reftrace') or k.startswith('comb')}),
                    rule='(a) shipped fonts x generated texts (3 encodings, dir 0..7, face options, ppm, ill-formed units), long repetitive texts, random feature values; (b) %d byte-mutated fonts '
                         '(Silf-weighted: 1-5 byte edits in Silf/Glat/Gloc/Feat/Sill/cmap/hmtx/maxp/head/name) x 3 texts, of which the real loader accepted those counted under segments/nullseg; '
                         '(b2) compiled GDL-lite programs of 1-4 passes inserting 1-40 slots per matched glyph on texts of 1-40 characters (growth up to the cap and the budget); '
                         '(b3) random and insert-heavy GDL-lite programs x 6 strings: the engine\'s per-iteration loop observations (measure, counter, reset, live) per pass compared token by token with the trace of the reference loop '
-                        '(Model/RuleModel.v run_trace: budget, slot pool of Segment::newSlot, machine death), the object of the C02_reference_* theorems; (c) %d adversarial rule programs accepted by the real bytecode loader and run on real segments.  Every case: make, dump (all gr_seg_*/gr_slot_*/gr_cinfo_* queries), destroy under '
+                        '(Model/RuleModel.v run_trace: budget, slot pool of Segment::newSlot, machine death), the object of the C02_reference_* theorems; (c) %d adversarial rule programs accepted by the real bytecode loader and run on real segments; (d) the state machines of compiled GDL-lite passes (intact, and with edited transitions, start states, ranges, rule map entries and offsets) as loaded and as run by Pass::runFSM from every slot of a text, against Model/FsmModel.v.  Every case: make, dump (all gr_seg_*/gr_slot_*/gr_cinfo_* queries), destroy under '
                         'ASan+UBSan+LSan with a watchdog; n_slots <= 64*n_chars; hook counter against maxRuleLoop*(slots+budget+2); loop/growth traces through the extracted acceptors; '
                         'non-trivial = distinct (family, font, size class, growth class, well-formedness verdict)' % (nf, n_vm),
                    samples=[cases[0][:200], mcases[0][:200]], exhaustive=False)
